@@ -29,7 +29,7 @@ var commonAssume = []string{
 	"reach is the generated workload: the histories, names, contents and fault positions this run executed",
 	"trusted base: Go std (os, compress/zlib, crypto/sha1) and the independent decoders in harness/gitfmt",
 	"commands are invoked from the repository root, one real goit process per command",
-	"generated file names exclude NUL, newline, CR, TAB, backslash, leading '-', '.'/'..' components; names with blanks at their ends only in C05; symbolic links only in C03 (as unreadable entries)",
+	"generated file names exclude NUL, newline, CR, TAB, leading '-', '.'/'..' components; names with blanks at their ends only in C05; symbolic links only in C03 (as unreadable entries)",
 }
 
 func CommonAssume() []string { return commonAssume }
